@@ -124,7 +124,12 @@ InitSt  == [b \in Leaves |-> IF IsSeq(b) THEN SeqInit(L(b).kind, L(b).p) ELSE 0]
 
 KInit(n, v0) ==
     /\ net = n
-    /\ val = v0
+    \* Reg.__init__ puts its reset value on q (power-up value)
+    /\ val = [w \in 1..Len(n.width) |->
+                IF \E b \in 1..Len(n.leaves) : n.leaves[b].kind = "Reg" /\ n.leaves[b].outs[1] = w
+                THEN LET b == CHOOSE b \in 1..Len(n.leaves) : n.leaves[b].kind = "Reg" /\ n.leaves[b].outs[1] = w
+                     IN  Put(n.leaves[b].p[3], n.width[w])
+                ELSE v0[w]]
     /\ nxt = [w \in 1..Len(n.width) |-> 0]
     /\ prepared = <<>>
     /\ st = [b \in 1..Len(n.leaves) |->
